@@ -44,17 +44,22 @@ import (
 )
 
 type c15Env struct {
-	k   bridgekeeper.Keeper
-	ctx sdk.Context
+	k     bridgekeeper.Keeper
+	ctx   sdk.Context
+	reset func() // forgets the calls recorded by the testify mocks (they only grow; matters under native fuzzing)
+	n     int
 }
 
 func newC15Env(t testing.TB) *c15Env {
 	k, _, _, _, _, sk, ctx := keepertest.BridgeKeeper(t)
 	sk.On("TotalBondedTokens", mock.Anything).Return(math.NewInt(123456789), nil)
-	return &c15Env{k: k, ctx: ctx}
+	return &c15Env{k: k, ctx: ctx, reset: func() { sk.Calls = nil }}
 }
 
 func (e *c15Env) fresh() sdk.Context {
+	if e.n++; e.n%20000 == 0 && e.reset != nil {
+		e.reset()
+	}
 	c, _ := e.ctx.CacheContext()
 	return c
 }
@@ -747,6 +752,13 @@ func (s *c15Signer) use(priv []byte) error {
 		kr, err := s.h.GetKeyring()
 		if err != nil {
 			return err
+		}
+		// the in-memory keyring only grows: under native fuzzing (millions of distinct keys) forget old keys
+		if len(s.have) >= 4096 {
+			for old := range s.have {
+				_ = kr.Delete(old)
+			}
+			s.have = map[string]bool{}
 		}
 		if err := kr.ImportPrivKeyHex(name, hex.EncodeToString(priv), "secp256k1"); err != nil {
 			return fmt.Errorf("import key: %w", err)
